@@ -11,9 +11,12 @@ def adaptFunctions : List (String × List String × List (String × String × Li
   ("adapt_node", ["node", "proto", "source_version", "target_version", "var_names"],
    [("return", "None", ["v2 == v3"]), ("return", "None", ["<except ValueError>"]), ("return", "v7", [])],
    ["from_array", "input_info.values", "isinstance", "list", "node.inputs.get_vars", "node.inputs.get_vars().items", "node.outputs.get_vars", "node.outputs.get_vars().items", "onnx.checker.check_model", "onnx.helper.make_graph", "onnx.helper.make_model", "onnx.helper.make_operatorsetid", "onnx.version_converter.convert_version", "set", "var.unwrap_type", "var.unwrap_type()._to_onnx_value_info"]),
+  ("_initializers_to_constants", ["graph"],
+   [("return", "", ["not v2"])],
+   ["graph.node.extend", "list", "onnx.helper.make_node"]),
   ("adapt_inline", ["node", "protos", "target_opsets", "var_names", "node_name"],
    [("return", "v1", ["not v7 & {'', 'ai.onnx'}"]), ("return", "v11", ["v6 != v5"]), ("return", "v1", [])],
-   ["Scope.of", "max", "node.to_onnx", "onnx.version_converter.convert_version", "var_names.items"]),
+   ["Scope.of", "_initializers_to_constants", "max", "node.to_onnx", "onnx.version_converter.convert_version", "var_names.items"]),
   ("adapt_best_effort", ["node", "protos", "opsets", "var_names", "node_names"],
    [("return", "adapt_inline(v0, v1, v2, v3, v4[v0])", ["isinstance(v0, _Inline)"]), ("return", "None", ["isinstance(v0, _InternalNode) or len(v1) != 1"]), ("return", "None", ["any((isinstance(v14, AttrGraph) for v14 in v0.attrs.get_fields().values()))"]), ("return", "None", ["not v10"]), ("return", "None", ["v5.domain not in ('', 'ai.onnx')"]), ("return", "v11", [])],
    ["RuntimeWarning", "SCHEMAS.get", "SCHEMAS.get(domain, {}).get", "SCHEMAS.get(domain, {}).get(source_version, {}).get", "SCHEMAS.get(domain, {}).get(target_version, {}).get", "adapt_inline", "adapt_node", "any", "isinstance", "len", "max", "node.attrs.get_fields", "node.attrs.get_fields().values", "warnings.warn"])
